@@ -62,6 +62,12 @@ CHECKS = {
         text="TLC proves LineageSound (cut within the parent, names the last message at or before it, parent untouched) on every reachable state and generates the predicted outcome of every selector class in every state; the real store must answer the same, add bytes only for the new thread (created@0, lineage@1) and a handoff's summary must be readable afterwards.",
         note="Exhaustive within MaxFrames/MaxOps; artifact readability = blob file exists under .rip/artifacts/blobs.",
         ref="4 C10"),
+    "C11": dict(
+        engine="WorkspaceLock",
+        technique="TLA+ specs ExecOrder (observable: executions, side-effects frames, run ends) and WorkspaceLock (mechanism; TLC checks its invariants, liveness and that it refines ExecOrder); every (holder, program counter) state TLC enumerates is forced on the real router by parking the holder at that hook point while 8 other actors run; the recorded hook traces are validated by TLC against ExecOrderTrace and (strict, lock owner inferred) WorkspaceLockTrace",
+        text="TLC proves NoOverlap, LockDiscipline, OrderAgrees, SEOnce, SEBeforeRunEnd, ReadOnlyFree and termination of every actor on the mechanism specification (direct tool commands, a 3-call provider loop, checkpoint command, tasks, a task cancelled while queued, read-only tools), proves that it refines the observable specification, and finds the counterexamples of the two excluded designs; each state with one actor inside its critical section is forced on the real router (holder parked at ws.acquired / exec begin / exec end / just before the side-effects append / ws.releasing) while all other actors of the cast are started and run until nothing moves; TLC then checks every recorded trace event by event: no second mutating execution begins while one is open, each owed frame appears exactly once after its tool finished, in the order the executions began, before the run ends, listing the changed file; read-only actors must finish inside the hold window.",
+        note="Schedules are forced at hook points and perturbed by seeded delays, not enumerated at instruction level; PTY tasks not exercised; a rejected strict-mechanism trace is reported as conformance drift, only a false ExecOrder guard is a violation.",
+        ref="4 C11"),
     "C12": dict(
         engine="Patch",
         technique="TLA+ spec Patch (abstract file system, add/delete/update+move, forward-cursor hunks, undo) checked with TLC; every (initial file system, document) pair TLC enumerates is materialised and applied by the real Workspace::apply_patch and the apply_patch tool; full tree + bytes compared with the prediction",
